@@ -15,28 +15,42 @@ Inductive winit :=
 | IStatic (filled : list val) (o : otable)  (* the inner source returned this translated value *)
 | IWatchFail (filled : list val) (o : otable). (* ... and then its Watch failed *)
 
+(* view_at_return: the View read immediately after the report returned (for a
+   blocking report it must already show the installed value); view_after: the
+   View after the update has settled *)
 Inductive wstep :=
-| WStep (filled : list val) (o : otable) (blocking : bool)
+| WStep (filled : list val) (o : otable) (blocking : bool) (view_at_return : list val)
         (view_after : list val) (new_errors : N) (returned_error : bool).
 
+(* Verify() of the harness's config types: reject when field i is an integer below the bound *)
+Definition vrule := option (nat * Z).
+Definition verify_of (r : vrule) (view : list val) : bool :=
+  match r with
+  | None => true
+  | Some (i, b) => match nth i view VNil with VInt z => negb (z <? b)%Z | _ => true end
+  end.
+
 Inductive c20case :=
-| WCase (t0 : fields) (defaults : list val) (ms : list mangler) (init : winit)
+| WCase (t0 : fields) (defaults : list val) (vr : vrule) (ms : list mangler) (init : winit)
         (config : outcome (list val)) (steps : list wstep)
 | WDied.
 
 Definition views_eqb (a b : list val) : bool := val_eqm (VList a) (VList b).
 
-(* steps: model state against the observed views / error counts *)
-Fixpoint check_steps (fuel : nat) (t0 : fields) (defaults : list val) (ms : list mangler)
+(* steps: model state, error events and the value returned to the reporting
+   watcher against what was observed *)
+Fixpoint check_steps (fuel : nat) (t0 : fields) (defaults : list val) (vr : vrule) (ms : list mangler)
   (x : xstate) (ttr : ty) (s : dstate) (steps : list wstep) : N :=
   match steps with
   | [] => 0
-  | WStep filled o blocking va ne re :: rest =>
-      match (r <- ts_report fuel (case_env o) ms x (ttr, VStruct filled) ;; dials_step t0 defaults s r) with
-      | Ok s' =>
+  | WStep filled o blocking var va ne re :: rest =>
+      match ts_report_ret fuel (case_env o) ms x blocking t0 defaults (verify_of vr) s (ttr, VStruct filled) with
+      | Ok (s', ret) =>
           if views_eqb (d_view s') va &&
-             (if d_errors s' =? d_errors s then ne =? 0 else 1 <=? ne)
-          then check_steps fuel t0 defaults ms x ttr s' rest
+             (if d_errors s' =? d_errors s then ne =? 0 else 1 <=? ne) &&
+             Bool.eqb ret re &&
+             (if blocking then views_eqb (d_view s') var else true)
+          then check_steps fuel t0 defaults vr ms x ttr s' rest
           else 3
       | _ => 3
       end
@@ -45,7 +59,7 @@ Fixpoint check_steps (fuel : nat) (t0 : fields) (defaults : list val) (ms : list
 Definition check (c : c20case) : N :=
   match c with
   | WDied => 3
-  | WCase t0 defaults ms init config steps =>
+  | WCase t0 defaults vr ms init config steps =>
       let t := TStruct (ptrify_fields t0) [] in
       let fuel := fuel_for t in
       let tr := translate fuel ms t in
@@ -57,13 +71,13 @@ Definition check (c : c20case) : N :=
       let E := case_env (match init with IStatic _ o | IWatchFail _ o => o | _ => [] end) in
       let first := ts_value fuel E ms t (inner init) in
       let watch_ok := match init with IWatchFail _ _ => false | _ => true end in
-      let model_cfg := s <- dials_config t0 defaults first ;;
+      let model_cfg := s <- dials_config t0 defaults (verify_of vr) first ;;
                        if watch_ok then Ok s else Err 2 in
       match model_cfg, config with
       | Ok s, Ok v =>
           if negb (views_eqb (d_view s) v) then 3
           else match tr with
-               | Ok (ttr, x) => check_steps fuel t0 defaults ms x ttr s steps
+               | Ok (ttr, x) => check_steps fuel t0 defaults vr ms x ttr s steps
                | _ => 3
                end
       | Err _, Err _ => 0
